@@ -33,6 +33,10 @@ for ent, fns in (("h_bels", ["belsShare3", "belsShare2", "belsRecover2"]), ("h_k
     GROUPS.append(G("hl2.%s.search" % ent[2:], "harness/C09/hl_more.c", ent, MORE, level="N", backend="native", search=60000, fn=fns,
                     native_srcs=MORE + ["@stubs/mem_ghost.c"],
                     note="native run with allocation-failure injection and wipe tracking; NOT proof"))
+import importlib.util as _iu, os as _os
+_sp = _iu.spec_from_file_location("plan_C02_for_C09", _os.path.join(_os.path.dirname(__file__), "C02.py"))
+_c02 = _iu.module_from_spec(_sp); _sp.loader.exec_module(_c02)
+GROUPS += [dict(g, name="bign." + g["name"]) for g in _c02.GROUPS if g["name"] == "roundtrip.search"]
 TRUSTED = ["stubs/mem_ghost.c: allocator contracts with ghost state (memAlloc / memFree / memWipe)", "stubs/belt_uf.c"]
 ASSUMPTIONS = ["errors that depend on number-theoretic verdicts are out of scope of these groups"]
 NOT_COVERED = ["bign, bign96, btok, bpki, bake high-level functions; bash/brng/botp/bels only natively (hl2.*)", "scalar arguments other than key and data length (level, alphabet size: see C01 fmt.err)"]
